@@ -1,12 +1,15 @@
 """C09 Dynamic slices are sound and checked lines were executed.
 
-Spec: PyMiniData.tla - a big-step semantics of a Python fragment with locals, globals, attributes,
-list/dict elements, calls of helper functions, `if x:` / `for` / `while x:` / early `return`, that computes the
-DYNAMIC DEPENDENCE relation along the executed path (data: last definition of everything a statement
-instance reads; control: the decisions that let it execute) and Slice(criterion) = backward closure.
+Spec: PyMiniData.tla - a big-step semantics of a Python fragment with locals, globals, attributes (instance
+and class level, public and underscore names), list/dict elements, calls of helper functions (frames; helper
+bodies are programs of the same language, some with their own branching / loop), closures defined in the
+function under test that read / write (`nonlocal`) one of its locals, `if x:` / `for` / `while x:` / early
+`return`, that computes the DYNAMIC DEPENDENCE relation along the executed path (data: last definition of
+everything a statement instance reads; control: the decisions that let it execute, the call that runs the
+callee) and Slice(criterion) = backward closure.
 MC_PyMiniData.tla builds programs (skeleton x statements x inputs): exhaustively for the straight-line
 skeletons (full / core and themed alphabets), by `-simulate` for all 22 skeletons with branching / loops /
-nesting depth 2.
+nesting depth 2 (full alphabet; closure, helper and underscore alphabets).
 
 Every case is rendered as a SUT module; the test `var_0 = f(a, b)` (+ `assert var_0 == v`) is executed
 by the REAL TestCaseExecutor under CHECKED instrumentation with the real
@@ -91,11 +94,18 @@ def _slice_paths(c: dict) -> set:
     return {tuple(p) for p in c["exp"]["slice"]}
 
 
+def _two_vars(c: dict) -> bool:
+    """An attribute is loaded through one of o / p and stored through the other one (alias or second object)."""
+    st = {(s["o"], s["f"]) for s in c["prog"] if s["t"] == "store"}
+    return any(s["t"] == "load" and s["o"] in "op" and ("p" if s["o"] == "o" else "o", s["f"]) in st for s in c["prog"])
+
+
 _FOCUS = {
+    "attr": _two_vars,
     # the body of an inner function is in the slice
     "clo": lambda c: any(p[0] == 0 and 3 in p[2::2] for p in _slice_paths(c)),
     # a class-level attribute or an instance attribute with an underscore name is in the slice
-    "uattr": lambda c: bool({(8, 6), (8, 7)} & _slice_paths(c)) or any(
+    "uattr": lambda c: bool({(8, 6), (8, 7)} & _slice_paths(c)) or _two_vars(c) or any(
         s["t"] == "store" and s["f"] == 2 and c["exp"]["slice"].count([0, i]) for i, s in enumerate(c["prog"], 1)),
     # a line of a helper with its own branching (k, m) is in the slice
     "hlp": lambda c: any(p[:2] in ((9, 3), (9, 4)) for p in _slice_paths(c)),
@@ -123,9 +133,10 @@ def cases(ctx: Ctx) -> list[dict]:
     rng = ctx.rng("pick")
     exh.sort(key=_key)
     rng.shuffle(exh)
-    # a stratified sample of the enumerated families (thorough: only the new, large ones are sampled); in the closure /
-    # underscore / helper families two thirds of the sample are programs whose returned value depends (per the spec)
-    # on the feature of the family
+    # a stratified sample of the enumerated families (thorough: only the new, large ones are sampled); two thirds of
+    # the sample of a themed family are programs that exercise its feature: the returned value depends (per the spec)
+    # on an inner function / a class-level or underscore attribute / a branching helper; an attribute is stored
+    # through one variable and loaded through the other
     quota = {"full": 50, "attr": 80, "uattr": 50, "clo": 75} if q else {"uattr": 800, "clo": 1000, "hlp": 600}
     focus = {a: (2 * n) // 3 for a, n in quota.items() if a in _FOCUS}
     picked, taken = [], set()
@@ -222,20 +233,29 @@ def _strip(e: dict) -> dict:
 def run(ctx: Ctx) -> None:
     ctx.rule = ("case = (program, inputs a, b): programs of the PyMiniData fragment built by MC_PyMiniData: skeleton "
                 "(22 shapes: straight line, if, if/else, early return, for, while, return inside a loop, nesting depth "
-                "2; <= 7 body statements + creation of the containers used + return) x alphabet of 37 simple statements "
-                "(locals, one global, attributes of a Box and of an alias / a second Box, list and dict elements, calls "
-                "of two helper functions with locals named like the caller's, one of which branches and reads the "
-                "global) x inputs in {0,1,2}^2. quick: a stratified sample (160) of the exhaustively enumerated "
-                "two-statement programs over the full alphabet and three-statement programs over the attribute "
-                "alphabet + ~270 simulated programs over all skeletons; thorough: all ~3700 exhaustively enumerated "
-                "two/three-statement programs (core, attribute, container, global alphabets) + ~3800 simulated. "
+                "2; <= 7 body statements + creation of the containers used + return) x alphabet (full: 37 simple "
+                "statements over locals, one global, attributes of a Box and of an alias / a second Box, list and dict "
+                "elements, calls of helper functions with locals named like the caller's; themed: attributes whose name "
+                "starts with an underscore incl. class-level attributes read through an instance and shadowed by an "
+                "instance attribute; closures `def r(z): return y + z` / `def w(z): nonlocal y; y = z + 1` defined in f "
+                "before or after the assignments of y, called from f; helpers with their own branching: k (value of the "
+                "condition computed on the line before an if/else), m (for loop with an if), g (early return, reads the "
+                "global)) x inputs in {0,1,2}^2. quick: a stratified sample (255) of the exhaustively enumerated "
+                "two/three/four-statement programs (full, attribute, underscore-attribute, closure alphabets; two thirds "
+                "of the closure / underscore sample depend on the feature per the spec) + ~190 simulated programs over "
+                "all skeletons with the full alphabet + ~200 with the closure / helper / underscore alphabets; thorough: "
+                "all ~3500 enumerated programs of the core, attribute, container, global alphabets, 2400 sampled from "
+                "the ~10000 of the underscore, closure, helper alphabets, ~2900 + ~1200 simulated. "
                 "non-trivial = distinct cases whose spec slice has >= 3 lines of f")
     ctx.assumptions = [
         "executed = lines executed by the import or by the call (sys.monitoring LINE events of all code objects of the "
         "uninstrumented module); every Pynguin trace starts from the import trace",
         "supported fragment: attribute/element loads depend on the last store to that attribute/element of the same "
-        "object, not on the definition of the variable holding the reference (documented in stacksimulation.py); no "
-        "closures, generators, exceptions, mutating method calls (list.append/sort: documented expected failures)",
+        "object (class-level attribute: the line of the class body), not on the definition of the variable holding the "
+        "reference (documented in stacksimulation.py); the line `def r(z):` does not depend on the captured variable; no "
+        "generators, exceptions, mutating method calls (list.append/sort: documented expected failures)",
+        "the statements of a callee are control dependent on the call (a callee that assigns a global or a captured "
+        "variable pulls its call site into the slice)",
         "soundness is only demanded when the semantics conforms with the interpreter on the case (lines, return value)",
     ]
     cs = cases(ctx)
